@@ -636,6 +636,11 @@ class MarkdownNormalizer(Renderer):
         return f"[{link_text}]({_render_link_dest(element.dest)}{title})"
 
     def render_auto_link(self, element: inline.AutoLink) -> str:
+        # Render the text as written: the destination of an email autolink (`<a@b.c>`)
+        # has a `mailto:` prefix that is not part of its text.
+        child = element.children[0] if element.children else None
+        if isinstance(child, inline.RawText) and isinstance(child.children, str):
+            return f"<{child.children}>"
         return f"<{element.dest}>"
 
     def render_image(self, element: inline.Image) -> str:
